@@ -27,6 +27,13 @@ def run(tier, seed):
     if not g.ok or not g.cases:
         log(g.out[-2000:])
         die_tool("Checkpoint.tla: invariant violated or TLC error")
+    gd = tlc.run("GenCheckpoint", "GenCheckpoint_deep.cfg", workers=6, timeout=3000, heap="12g")
+    v.add_tlc(gd, "GenCheckpoint (one path, sequences of 5 operations incl. repeated rewinds to one checkpoint around in-place edits)")
+    if not gd.ok or not gd.cases:
+        log(gd.out[-2000:])
+        die_tool("Checkpoint.tla (deep): invariant violated or TLC error")
+    # aliasing between the workspace and the store shows when one checkpoint is rewound to more than once
+    deep = [c for c in gd.cases if len(c["steps"]) >= 4 and sum(1 for st in c["steps"] if st["o"]["k"] == "rewind" and st["ok"]) >= 2]
     total = 0
     for cwd in ("root", "elsewhere"):
         for mode in ("direct", "router"):
@@ -36,6 +43,8 @@ def run(tier, seed):
                 sel = sel[(seed % step)::step]
             elif cwd == "elsewhere" and not thorough:
                 sel = sel[::4]
+            if mode == "direct" and cwd == "root":
+                sel = sel + deep
             cases = [{"id": f"{cwd}-{mode}-{i}", "fs0": c["fs0"], "steps": [{"o": s["o"]} for s in c["steps"]], "cwd": cwd, "mode": mode, "_steps": c["steps"]}
                      for i, c in enumerate(sel)]
             results = run_harness("ckpt", [{k: c[k] for k in c if not k.startswith("_")} for c in cases], wd, f"ck-{cwd}-{mode}", shards=14, timeout=3000)
@@ -48,6 +57,7 @@ def run(tier, seed):
                 rep = {"engine": "ckpt", "case": {k: c[k] for k in c if not k.startswith("_")}, "predicted": c["_steps"]}
                 for k, (pred, ob) in enumerate(zip(c["_steps"], res["obs"])):
                     o = pred["o"]
+                    ob = dict(ob, fs={p: ob["fs"].get(p) for p in pred["fs"]})      # the model's paths (the deep family has one)
                     if ob["fs"] != pred["fs"]:
                         what = "rewind did not restore the checkpointed state" if o["k"] == "rewind" and pred["ok"] else \
                                ("failed rewind changed the workspace" if o["k"] == "rewind" else "workspace differs from the reference")
@@ -58,7 +68,7 @@ def run(tier, seed):
                         v.violation(f"{o['k']} {'succeeded' if ob['ok'] else 'failed'} but the reference says ok={pred['ok']} at step {k} ({o}) [cwd={cwd}, {mode}]",
                                     dict(rep, step=k, observed=ob))
                         break
-                    if o["k"] in ("write", "patch_add", "patch_del", "patch_move"):
+                    if o["k"] in ("write", "patch_add", "patch_upd", "patch_del", "patch_move"):
                         if pred["ok"] and not (ob["auto_before_tool"] and ob["auto"] is True):
                             v.violation(f"file-editing tool ran without a preceding automatic checkpoint at step {k} ({o}): frames {ob['kinds']}", dict(rep, step=k, observed=ob))
                             break
